@@ -663,6 +663,20 @@ class StochasticSolver(MultiTrajSolver):
             self._m_ops = [op + op.dag() for op in sc_ops]
             self._dW_factors = np.ones(len(sc_ops))
 
+    def _argument(self, args):
+        """Update the args, for the `rhs` and the measurement operators."""
+        super()._argument(args)
+        if args:
+            # The measurement operators are built from the `sc_ops`: they
+            # depend on the same arguments.
+            m_ops = []
+            for m_op in self._m_ops:
+                if isinstance(m_op, QobjEvo):
+                    m_op = m_op.copy()
+                    m_op.arguments(args)
+                m_ops.append(m_op)
+            self._m_ops = m_ops
+
     @property
     def heterodyne(self) -> bool:
         return self._heterodyne
